@@ -150,6 +150,8 @@ def payload(n, kind):
         return b"\x00" * n
     if kind == "pattern":
         return (b"abcdefghij" * (n // 10 + 1))[:n]
+    if kind == "newlines":
+        return b"\n" * n                 # the terminator's own byte as payload
     # incompressible: fixed LCG stream
     out = bytearray()
     x = 12345
@@ -164,7 +166,7 @@ def check_packets():
     n = 0
     classes = set()
     for size in SIZES:
-        for kind in ("zeros", "pattern", "random"):
+        for kind in ("zeros", "pattern", "random", "newlines"):
             p = payload(size, kind)
             for comp in (True, False):
                 n += 1
